@@ -276,7 +276,8 @@ def run(chk):
     echo_stats = {"behaviours": 0, "rejected": 0}
     if quick:
         echos = [("n3b1", "EchoMC_gen_n3b1.cfg", None, None), ("n3b12", "EchoMC_gen_n3b12.cfg", None, None),
-                 ("n4b0", "EchoMC_gen_n4b0.cfg", None, None), ("n4b1", "EchoMC_gen_n4b1.cfg", 3000, None)]
+                 ("n4b0", "EchoMC_gen_n4b0.cfg", None, None), ("n4b1", "EchoMC_gen_n4b1.cfg", 3000, None),
+                 ("n4b12s", "EchoMC_gen_n4b12.cfg", 4000, 2500)]     # two colluding Byzantine parties among four: simulated sample
     else:
         echos = [("n3b1", "EchoMC_gen_n3b1.cfg", None, None), ("n3b12", "EchoMC_gen_n3b12.cfg", None, None),
                  ("n3b0", "EchoMC_gen_n3b0.cfg", None, None), ("n4b0", "EchoMC_gen_n4b0.cfg", None, None),
